@@ -291,6 +291,20 @@ pub fn worker(sub: &str, v: Value) -> Value {
             r["shades"] = json!(m.shades.len());
             r
         }
+        "C14.long_calendar" => {
+            let c: LongCal = serde_json::from_value(v).expect("case decodes");
+            let mut m: Model = match serde_json::from_value(base_value(&Base::Shipped(c.base.clone()))) {
+                Ok(m) => m,
+                Err(e) => return json!({"outcome": "rejected", "why": e.to_string()}),
+            };
+            // the calendar of the first load that has one: its last period gets `days` days
+            let yid = m.loads.iter().find_map(|l| l.people_schedule.or(l.equipment_schedule).or(l.lighting_schedule));
+            match yid.and_then(|id| m.schedules.year.iter_mut().find(|y| y.id == id)).and_then(|y| y.values.last_mut()) {
+                Some(v) => v.1 = c.days,
+                None => return json!({"outcome": "rejected", "why": "no load with a calendar"}),
+            }
+            compute_and_probe(&m)
+        }
         "C14.history" => {
             let ops: Vec<Op> = serde_json::from_value(v).expect("case decodes");
             let mut m = Model::default();
@@ -614,6 +628,45 @@ fn mut_case() -> BoxedStrategy<MutCase> {
         .boxed()
 }
 
+// ---- calendars that declare more days than a year has
+
+#[derive(Clone, Debug, Serialize, Deserialize)]
+pub struct LongCal {
+    pub base: String,
+    pub days: u32,
+}
+
+fn long_calendar_cases() -> Vec<LongCal> {
+    let mut v = vec![];
+    for base in shipped_names() {
+        for days in [366u32, 3_650, 100_000, 400_000_000] {
+            v.push(LongCal { base: base.clone(), days });
+        }
+    }
+    v
+}
+
+fn check_long_calendar(h: &CaseH, c: &LongCal) -> Verdict {
+    let what = format!("shipped {} with the last period of its first load calendar {} days long", c.base, c.days);
+    match worker_call("C14.long_calendar", c, Duration::from_secs(120)) {
+        WorkerOut::Ok(v) => {
+            let outcome = v["outcome"].as_str().unwrap_or("");
+            h.class(&format!("days/{}/{}", c.days, outcome));
+            if outcome == "panic" {
+                let p: PanicInfo = serde_json::from_value(v["panic"].clone()).unwrap_or_default();
+                return Verdict::Fail { sig: format!("C14:indicators:{}", p.signature()), what: format!("{}: energy_indicators() panics at {}:{}: {}", what, p.file, p.line, p.msg.lines().next().unwrap_or("")) };
+            }
+            if outcome == "ok" {
+                h.nontrivial(fp(&(c.base.clone(), c.days)));
+            }
+            Verdict::Pass
+        }
+        WorkerOut::Panic(p) => Verdict::from_panic("C14:worker", &p),
+        WorkerOut::Hang => Verdict::fail(format!("C14:long-calendar:{}:hang", c.days), format!("{}: no result within 120 s", what)),
+        WorkerOut::Died(s) => Verdict::fail(format!("C14:long-calendar:{}:process-died", c.days), format!("{}: the worker process (3 GiB address space) died ({})", what, s)),
+    }
+}
+
 // ---- regular arrays of equal shades (brise-soleil, louvres) in front of a window
 
 #[derive(Clone, Debug, Serialize, Deserialize)]
@@ -789,13 +842,15 @@ fn check_history(h: &CaseH, ops: &Vec<Op>) -> Verdict {
 
 pub fn run(args: &Args) -> ! {
     let ctx = Ctx::new("C14", "exploration", args);
-    ctx.rule("mutants: shipped models and generated models (closed and open plans) with 0-3 structural edits of the JSON tree (delete key / array item, empty / duplicate / truncate array, redirect an id to another, a fresh or the nil id, zero / negate a number, resize a numeric array to 0/1/23/25 values, empty the period list of a yearly schedule - the last one keeps a closed model sane, so its numbers must stay finite), trees that Model::from_json rejects are counted; histories: 1-25 editor operations from Model::default() with the indicators recomputed after every step; louvres: shipped and generated models with 2-90 equal slats (same extent along the wall, stacked at a fixed spacing: coinciding centres on the longest axis of the group, below, at and above the leaf size of the acceleration structure) in front of one of their windows; sun_facing (exhaustive): for every zone and every hour of its July design day a roof window whose plane faces the sun of that hour exactly, and every tilt / azimuth offset of up to 0.004 (thorough 0.012) degrees in steps of 0.001: the indicators are finite and the obstruction factor lies in [0, 1]. Every computation runs in a worker process (60 s watchdog): panic, hang or process death is a violation; after a panic the same process must still compute a known good model to its baseline; unedited closed models must give only finite numbers and an indicators JSON that loads back to an equal value. Non-trivial: at least one edit applied; history with a window.");
+    ctx.rule("mutants: shipped models and generated models (closed and open plans) with 0-3 structural edits of the JSON tree (delete key / array item, empty / duplicate / truncate array, redirect an id to another, a fresh or the nil id, zero / negate a number, resize a numeric array to 0/1/23/25 values, empty the period list of a yearly schedule - the last one keeps a closed model sane, so its numbers must stay finite), trees that Model::from_json rejects are counted; histories: 1-25 editor operations from Model::default() with the indicators recomputed after every step; louvres: shipped and generated models with 2-90 equal slats (same extent along the wall, stacked at a fixed spacing: coinciding centres on the longest axis of the group, below, at and above the leaf size of the acceleration structure) in front of one of their windows; sun_facing (exhaustive): for every zone and every hour of its July design day a roof window whose plane faces the sun of that hour exactly, and every tilt / azimuth offset of up to 0.004 (thorough 0.012) degrees in steps of 0.001: the indicators are finite and the obstruction factor lies in [0, 1]. long_calendars (exhaustive): every shipped model with the last period of its first load calendar set to 366, 3 650, 100 000 and 400 000 000 days (a model that loads from JSON may declare any u32): a result is required (120 s watchdog, 3 GiB address space). Every computation runs in a worker process (60 s watchdog): panic, hang or process death is a violation; after a panic the same process must still compute a known good model to its baseline; unedited closed models must give only finite numbers and an indicators JSON that loads back to an equal value. Non-trivial: at least one edit applied; history with a window.");
     ctx.assume("finiteness is read from the Debug text of EnergyIndicators (every f32, also inside Option); 'closed' = generated closed plan or shipped model, unedited");
     ctx.replay_regressions(replay_one);
     ctx.run_prop("mutants", ctx.tier().pick(40_000, 1_000_000), mut_case, check_mutant);
     ctx.run_prop("histories", ctx.tier().pick(2_000, 30_000), || proptest::collection::vec(op(), 1..=25), check_history);
     ctx.run_prop("louvres", ctx.tier().pick(1_200, 40_000), louvre_case, check_louvres);
     ctx.run_enum("sun_facing", &sun_facing_cases(ctx.tier()), true, check_sun_facing);
+    ctx.run_enum("long_calendars", &long_calendar_cases(), true, check_long_calendar);
+    ctx.require_class("long_calendars/days/100000/ok");
     ctx.require_class("sun_facing/exactly-facing");
     ctx.require_class("louvres/slats/>30");
     ctx.require_class("louvres/outcome/ok");
@@ -844,6 +899,7 @@ pub fn replay_one(ctx: &Ctx, doc: &ReplayDoc) {
         "histories" => replay_case::<Vec<Op>>(ctx, &doc.sub, &doc.case, check_history),
         "louvres" => replay_case::<LouvreCase>(ctx, &doc.sub, &doc.case, check_louvres),
         "sun_facing" => replay_case::<SunFacing>(ctx, &doc.sub, &doc.case, check_sun_facing),
+        "long_calendars" => replay_case::<LongCal>(ctx, &doc.sub, &doc.case, check_long_calendar),
         s => ctx.infra_error(format!("unknown sub {}", s)),
     }
 }
